@@ -238,7 +238,9 @@ func c11aProperty(t *rapid.T) {
 	hx.ClassIf(contacts, "person_with_contacts")
 	if unsortedRoots || unsortedTargets || contacts {
 		if hx.NonTrivial(hx.Digest(hx.Snapshot(doc))) {
-			hx.Sample(func() any { return map[string]any{"node_list": hx.DescribeNL(doc.NodeList), "unsorted_roots": unsortedRoots, "unsorted_targets": unsortedTargets, "contacts": contacts} })
+			hx.Sample(func() any {
+				return map[string]any{"node_list": hx.DescribeNL(doc.NodeList), "unsorted_roots": unsortedRoots, "unsorted_targets": unsortedTargets, "contacts": contacts}
+			})
 		}
 	}
 
